@@ -123,7 +123,7 @@ theorem fieldImpls_spec (H : Hash2) (c : Config) (env : Env) : ∀ (fields : Lis
   | _ :: _, .nil, h, _ => by simp [structOk] at h
   | f :: fs, .cons n t r, h, henv => by
     simp only [structOk, Bool.and_eq_true] at h
-    obtain ⟨⟨_, hty⟩, hrest⟩ := h
+    obtain ⟨hty, hrest⟩ := h
     simp only [List.map_cons, SFields.eval, specImpls]
     cases hg : goTypeSTy f.goType with
     | none => simp [hg] at hty
@@ -609,15 +609,14 @@ theorem vecBlen_sound (hleg : (elem.eval c).Legal) (m : Method) (hop : m.isOpaqu
 
 end vector
 
-theorem extract_struct (owners : Owners) (views : List ViewDef) (T : GoType) (sfs : SFields) (fields : List GoField)
-    (h : checkType owners views T = none)
+theorem extract_struct_codec (owners : Owners) (views : List ViewDef) (T : GoType) (sfs : SFields) (fields : List GoField)
+    (h : checkType owners views .codec T = none)
     (hschema : Spec.lookup T.name = some (.container sfs)) (hdecl : T.decl = .struct fields) :
     structOk fields sfs = true ∧
     containerMethodOk owners views fields (.container sfs) n!"Deserialize" T.deserialize = true ∧
     containerMethodOk owners views fields (.container sfs) n!"Serialize" T.serialize = true ∧
     containerMethodOk owners views fields (.container sfs) n!"ByteLength" T.byteLength = true ∧
-    containerMethodOk owners views fields (.container sfs) n!"FixedLength" T.fixedLength = true ∧
-    containerMethodOk owners views fields (.container sfs) n!"HashTreeRoot" T.hashTreeRoot = true := by
+    containerMethodOk owners views fields (.container sfs) n!"FixedLength" T.fixedLength = true := by
   unfold checkType at h
   simp only [hschema, hdecl] at h
   split at h
@@ -632,17 +631,49 @@ theorem extract_struct (owners : Owners) (views : List ViewDef) (T : GoType) (sf
         have h2 := h (n!"Serialize", "Serialize", T.serialize) (by simp)
         have h3 := h (n!"ByteLength", "ByteLength", T.byteLength) (by simp)
         have h4 := h (n!"FixedLength", "FixedLength", T.fixedLength) (by simp)
-        have h5 := h (n!"HashTreeRoot", "HashTreeRoot", T.hashTreeRoot) (by simp)
-        exact ⟨by simpa using hs, by simpa using h1, by simpa using h2, by simpa using h3, by simpa using h4,
-          by simpa using h5⟩
+        exact ⟨by simpa using hs, by simpa using h1, by simpa using h2, by simpa using h3, by simpa using h4⟩
 
-theorem extract_list (owners : Owners) (views : List ViewDef) (T : GoType) (elem : STy) (lim : LExpr)
-    (h : checkType owners views T = none)
+theorem extract_struct_root (owners : Owners) (views : List ViewDef) (T : GoType) (sfs : SFields) (fields : List GoField)
+    (h : checkType owners views .root T = none)
+    (hschema : Spec.lookup T.name = some (.container sfs)) (hdecl : T.decl = .struct fields) :
+    structOk fields sfs = true ∧
+    containerMethodOk owners views fields (.container sfs) n!"HashTreeRoot" T.hashTreeRoot = true := by
+  unfold checkType at h
+  simp only [hschema, hdecl] at h
+  split at h
+  · simp at h
+  · split at h
+    · simp at h
+    · split at h
+      · simp at h
+      · rename_i hs
+        simp only [Option.map_eq_none_iff, List.find?_eq_none] at h
+        have h1 := h (n!"HashTreeRoot", "HashTreeRoot", T.hashTreeRoot) (by simp)
+        exact ⟨by simpa using hs, by simpa using h1⟩
+
+theorem extract_list_codec (owners : Owners) (views : List ViewDef) (T : GoType) (elem : STy) (lim : LExpr)
+    (h : checkType owners views .codec T = none)
     (hschema : Spec.lookup T.name = some (.list elem lim)) :
     listMethodOk owners views (.list elem lim) elem lim n!"Deserialize" T.deserialize = true ∧
     listMethodOk owners views (.list elem lim) elem lim n!"Serialize" T.serialize = true ∧
     listMethodOk owners views (.list elem lim) elem lim n!"ByteLength" T.byteLength = true ∧
-    listMethodOk owners views (.list elem lim) elem lim n!"FixedLength" T.fixedLength = true ∧
+    listMethodOk owners views (.list elem lim) elem lim n!"FixedLength" T.fixedLength = true := by
+  unfold checkType at h
+  simp only [hschema] at h
+  split at h
+  · simp at h
+  · split at h
+    · simp at h
+    · simp only [Option.map_eq_none_iff, List.find?_eq_none] at h
+      have h1 := h (n!"Deserialize", "Deserialize", T.deserialize) (by simp)
+      have h2 := h (n!"Serialize", "Serialize", T.serialize) (by simp)
+      have h3 := h (n!"ByteLength", "ByteLength", T.byteLength) (by simp)
+      have h4 := h (n!"FixedLength", "FixedLength", T.fixedLength) (by simp)
+      exact ⟨by simpa using h1, by simpa using h2, by simpa using h3, by simpa using h4⟩
+
+theorem extract_list_root (owners : Owners) (views : List ViewDef) (T : GoType) (elem : STy) (lim : LExpr)
+    (h : checkType owners views .root T = none)
+    (hschema : Spec.lookup T.name = some (.list elem lim)) :
     listMethodOk owners views (.list elem lim) elem lim n!"HashTreeRoot" T.hashTreeRoot = true := by
   unfold checkType at h
   simp only [hschema] at h
@@ -651,20 +682,32 @@ theorem extract_list (owners : Owners) (views : List ViewDef) (T : GoType) (elem
   · split at h
     · simp at h
     · simp only [Option.map_eq_none_iff, List.find?_eq_none] at h
-      have h1 := h (n!"Deserialize", "Deserialize", T.deserialize) (by simp)
-      have h2 := h (n!"Serialize", "Serialize", T.serialize) (by simp)
-      have h3 := h (n!"ByteLength", "ByteLength", T.byteLength) (by simp)
-      have h4 := h (n!"FixedLength", "FixedLength", T.fixedLength) (by simp)
-      have h5 := h (n!"HashTreeRoot", "HashTreeRoot", T.hashTreeRoot) (by simp)
-      exact ⟨by simpa using h1, by simpa using h2, by simpa using h3, by simpa using h4, by simpa using h5⟩
+      have h1 := h (n!"HashTreeRoot", "HashTreeRoot", T.hashTreeRoot) (by simp)
+      simpa using h1
 
-theorem extract_vector (owners : Owners) (views : List ViewDef) (T : GoType) (elem : STy) (len : LExpr)
-    (h : checkType owners views T = none)
+theorem extract_vector_codec (owners : Owners) (views : List ViewDef) (T : GoType) (elem : STy) (len : LExpr)
+    (h : checkType owners views .codec T = none)
     (hschema : Spec.lookup T.name = some (.vector elem len)) :
     vectorMethodOk owners views (.vector elem len) elem len n!"Deserialize" T.deserialize = true ∧
     vectorMethodOk owners views (.vector elem len) elem len n!"Serialize" T.serialize = true ∧
     vectorMethodOk owners views (.vector elem len) elem len n!"ByteLength" T.byteLength = true ∧
-    vectorMethodOk owners views (.vector elem len) elem len n!"FixedLength" T.fixedLength = true ∧
+    vectorMethodOk owners views (.vector elem len) elem len n!"FixedLength" T.fixedLength = true := by
+  unfold checkType at h
+  simp only [hschema] at h
+  split at h
+  · simp at h
+  · split at h
+    · simp at h
+    · simp only [Option.map_eq_none_iff, List.find?_eq_none] at h
+      have h1 := h (n!"Deserialize", "Deserialize", T.deserialize) (by simp)
+      have h2 := h (n!"Serialize", "Serialize", T.serialize) (by simp)
+      have h3 := h (n!"ByteLength", "ByteLength", T.byteLength) (by simp)
+      have h4 := h (n!"FixedLength", "FixedLength", T.fixedLength) (by simp)
+      exact ⟨by simpa using h1, by simpa using h2, by simpa using h3, by simpa using h4⟩
+
+theorem extract_vector_root (owners : Owners) (views : List ViewDef) (T : GoType) (elem : STy) (len : LExpr)
+    (h : checkType owners views .root T = none)
+    (hschema : Spec.lookup T.name = some (.vector elem len)) :
     vectorMethodOk owners views (.vector elem len) elem len n!"HashTreeRoot" T.hashTreeRoot = true := by
   unfold checkType at h
   simp only [hschema] at h
@@ -673,20 +716,32 @@ theorem extract_vector (owners : Owners) (views : List ViewDef) (T : GoType) (el
   · split at h
     · simp at h
     · simp only [Option.map_eq_none_iff, List.find?_eq_none] at h
-      have h1 := h (n!"Deserialize", "Deserialize", T.deserialize) (by simp)
-      have h2 := h (n!"Serialize", "Serialize", T.serialize) (by simp)
-      have h3 := h (n!"ByteLength", "ByteLength", T.byteLength) (by simp)
-      have h4 := h (n!"FixedLength", "FixedLength", T.fixedLength) (by simp)
-      have h5 := h (n!"HashTreeRoot", "HashTreeRoot", T.hashTreeRoot) (by simp)
-      exact ⟨by simpa using h1, by simpa using h2, by simpa using h3, by simpa using h4, by simpa using h5⟩
+      have h1 := h (n!"HashTreeRoot", "HashTreeRoot", T.hashTreeRoot) (by simp)
+      simpa using h1
 
-theorem extract_bitlist (owners : Owners) (views : List ViewDef) (T : GoType) (lim : LExpr)
-    (h : checkType owners views T = none)
+theorem extract_bitlist_codec (owners : Owners) (views : List ViewDef) (T : GoType) (lim : LExpr)
+    (h : checkType owners views .codec T = none)
     (hschema : Spec.lookup T.name = some (.bitlist lim)) :
     bitsMethodOk owners views (.bitlist lim) n!"bitlist" lim n!"Deserialize" T.deserialize = true ∧
     bitsMethodOk owners views (.bitlist lim) n!"bitlist" lim n!"Serialize" T.serialize = true ∧
     bitsMethodOk owners views (.bitlist lim) n!"bitlist" lim n!"ByteLength" T.byteLength = true ∧
-    bitsMethodOk owners views (.bitlist lim) n!"bitlist" lim n!"FixedLength" T.fixedLength = true ∧
+    bitsMethodOk owners views (.bitlist lim) n!"bitlist" lim n!"FixedLength" T.fixedLength = true := by
+  unfold checkType at h
+  simp only [hschema] at h
+  split at h
+  · simp at h
+  · split at h
+    · simp at h
+    · simp only [Option.map_eq_none_iff, List.find?_eq_none] at h
+      have h1 := h (n!"Deserialize", "Deserialize", T.deserialize) (by simp)
+      have h2 := h (n!"Serialize", "Serialize", T.serialize) (by simp)
+      have h3 := h (n!"ByteLength", "ByteLength", T.byteLength) (by simp)
+      have h4 := h (n!"FixedLength", "FixedLength", T.fixedLength) (by simp)
+      exact ⟨by simpa using h1, by simpa using h2, by simpa using h3, by simpa using h4⟩
+
+theorem extract_bitlist_root (owners : Owners) (views : List ViewDef) (T : GoType) (lim : LExpr)
+    (h : checkType owners views .root T = none)
+    (hschema : Spec.lookup T.name = some (.bitlist lim)) :
     bitsMethodOk owners views (.bitlist lim) n!"bitlist" lim n!"HashTreeRoot" T.hashTreeRoot = true := by
   unfold checkType at h
   simp only [hschema] at h
@@ -695,20 +750,32 @@ theorem extract_bitlist (owners : Owners) (views : List ViewDef) (T : GoType) (l
   · split at h
     · simp at h
     · simp only [Option.map_eq_none_iff, List.find?_eq_none] at h
-      have h1 := h (n!"Deserialize", "Deserialize", T.deserialize) (by simp)
-      have h2 := h (n!"Serialize", "Serialize", T.serialize) (by simp)
-      have h3 := h (n!"ByteLength", "ByteLength", T.byteLength) (by simp)
-      have h4 := h (n!"FixedLength", "FixedLength", T.fixedLength) (by simp)
-      have h5 := h (n!"HashTreeRoot", "HashTreeRoot", T.hashTreeRoot) (by simp)
-      exact ⟨by simpa using h1, by simpa using h2, by simpa using h3, by simpa using h4, by simpa using h5⟩
+      have h1 := h (n!"HashTreeRoot", "HashTreeRoot", T.hashTreeRoot) (by simp)
+      simpa using h1
 
-theorem extract_bitvector (owners : Owners) (views : List ViewDef) (T : GoType) (lim : LExpr)
-    (h : checkType owners views T = none)
+theorem extract_bitvector_codec (owners : Owners) (views : List ViewDef) (T : GoType) (lim : LExpr)
+    (h : checkType owners views .codec T = none)
     (hschema : Spec.lookup T.name = some (.bitvector lim)) :
     bitsMethodOk owners views (.bitvector lim) n!"bitvector" lim n!"Deserialize" T.deserialize = true ∧
     bitsMethodOk owners views (.bitvector lim) n!"bitvector" lim n!"Serialize" T.serialize = true ∧
     bitsMethodOk owners views (.bitvector lim) n!"bitvector" lim n!"ByteLength" T.byteLength = true ∧
-    bitsMethodOk owners views (.bitvector lim) n!"bitvector" lim n!"FixedLength" T.fixedLength = true ∧
+    bitsMethodOk owners views (.bitvector lim) n!"bitvector" lim n!"FixedLength" T.fixedLength = true := by
+  unfold checkType at h
+  simp only [hschema] at h
+  split at h
+  · simp at h
+  · split at h
+    · simp at h
+    · simp only [Option.map_eq_none_iff, List.find?_eq_none] at h
+      have h1 := h (n!"Deserialize", "Deserialize", T.deserialize) (by simp)
+      have h2 := h (n!"Serialize", "Serialize", T.serialize) (by simp)
+      have h3 := h (n!"ByteLength", "ByteLength", T.byteLength) (by simp)
+      have h4 := h (n!"FixedLength", "FixedLength", T.fixedLength) (by simp)
+      exact ⟨by simpa using h1, by simpa using h2, by simpa using h3, by simpa using h4⟩
+
+theorem extract_bitvector_root (owners : Owners) (views : List ViewDef) (T : GoType) (lim : LExpr)
+    (h : checkType owners views .root T = none)
+    (hschema : Spec.lookup T.name = some (.bitvector lim)) :
     bitsMethodOk owners views (.bitvector lim) n!"bitvector" lim n!"HashTreeRoot" T.hashTreeRoot = true := by
   unfold checkType at h
   simp only [hschema] at h
@@ -717,20 +784,32 @@ theorem extract_bitvector (owners : Owners) (views : List ViewDef) (T : GoType) 
   · split at h
     · simp at h
     · simp only [Option.map_eq_none_iff, List.find?_eq_none] at h
-      have h1 := h (n!"Deserialize", "Deserialize", T.deserialize) (by simp)
-      have h2 := h (n!"Serialize", "Serialize", T.serialize) (by simp)
-      have h3 := h (n!"ByteLength", "ByteLength", T.byteLength) (by simp)
-      have h4 := h (n!"FixedLength", "FixedLength", T.fixedLength) (by simp)
-      have h5 := h (n!"HashTreeRoot", "HashTreeRoot", T.hashTreeRoot) (by simp)
-      exact ⟨by simpa using h1, by simpa using h2, by simpa using h3, by simpa using h4, by simpa using h5⟩
+      have h1 := h (n!"HashTreeRoot", "HashTreeRoot", T.hashTreeRoot) (by simp)
+      simpa using h1
 
-theorem extract_byteList (owners : Owners) (views : List ViewDef) (T : GoType) (lim : LExpr)
-    (h : checkType owners views T = none)
+theorem extract_byteList_codec (owners : Owners) (views : List ViewDef) (T : GoType) (lim : LExpr)
+    (h : checkType owners views .codec T = none)
     (hschema : Spec.lookup T.name = some (.byteList lim)) :
     bitsMethodOk owners views (.byteList lim) n!"bytelist" lim n!"Deserialize" T.deserialize = true ∧
     bitsMethodOk owners views (.byteList lim) n!"bytelist" lim n!"Serialize" T.serialize = true ∧
     bitsMethodOk owners views (.byteList lim) n!"bytelist" lim n!"ByteLength" T.byteLength = true ∧
-    bitsMethodOk owners views (.byteList lim) n!"bytelist" lim n!"FixedLength" T.fixedLength = true ∧
+    bitsMethodOk owners views (.byteList lim) n!"bytelist" lim n!"FixedLength" T.fixedLength = true := by
+  unfold checkType at h
+  simp only [hschema] at h
+  split at h
+  · simp at h
+  · split at h
+    · simp at h
+    · simp only [Option.map_eq_none_iff, List.find?_eq_none] at h
+      have h1 := h (n!"Deserialize", "Deserialize", T.deserialize) (by simp)
+      have h2 := h (n!"Serialize", "Serialize", T.serialize) (by simp)
+      have h3 := h (n!"ByteLength", "ByteLength", T.byteLength) (by simp)
+      have h4 := h (n!"FixedLength", "FixedLength", T.fixedLength) (by simp)
+      exact ⟨by simpa using h1, by simpa using h2, by simpa using h3, by simpa using h4⟩
+
+theorem extract_byteList_root (owners : Owners) (views : List ViewDef) (T : GoType) (lim : LExpr)
+    (h : checkType owners views .root T = none)
+    (hschema : Spec.lookup T.name = some (.byteList lim)) :
     bitsMethodOk owners views (.byteList lim) n!"bytelist" lim n!"HashTreeRoot" T.hashTreeRoot = true := by
   unfold checkType at h
   simp only [hschema] at h
@@ -739,20 +818,32 @@ theorem extract_byteList (owners : Owners) (views : List ViewDef) (T : GoType) (
   · split at h
     · simp at h
     · simp only [Option.map_eq_none_iff, List.find?_eq_none] at h
-      have h1 := h (n!"Deserialize", "Deserialize", T.deserialize) (by simp)
-      have h2 := h (n!"Serialize", "Serialize", T.serialize) (by simp)
-      have h3 := h (n!"ByteLength", "ByteLength", T.byteLength) (by simp)
-      have h4 := h (n!"FixedLength", "FixedLength", T.fixedLength) (by simp)
-      have h5 := h (n!"HashTreeRoot", "HashTreeRoot", T.hashTreeRoot) (by simp)
-      exact ⟨by simpa using h1, by simpa using h2, by simpa using h3, by simpa using h4, by simpa using h5⟩
+      have h1 := h (n!"HashTreeRoot", "HashTreeRoot", T.hashTreeRoot) (by simp)
+      simpa using h1
 
-theorem extract_uint (owners : Owners) (views : List ViewDef) (T : GoType) (k : Nat)
-    (h : checkType owners views T = none)
+theorem extract_uint_codec (owners : Owners) (views : List ViewDef) (T : GoType) (k : Nat)
+    (h : checkType owners views .codec T = none)
     (hschema : Spec.lookup T.name = some (.uint k)) :
     leafMethodOk owners views (.uint k) n!"Deserialize" T.deserialize = true ∧
     leafMethodOk owners views (.uint k) n!"Serialize" T.serialize = true ∧
     leafMethodOk owners views (.uint k) n!"ByteLength" T.byteLength = true ∧
-    leafMethodOk owners views (.uint k) n!"FixedLength" T.fixedLength = true ∧
+    leafMethodOk owners views (.uint k) n!"FixedLength" T.fixedLength = true := by
+  unfold checkType at h
+  simp only [hschema] at h
+  split at h
+  · simp at h
+  · split at h
+    · simp at h
+    · simp only [Option.map_eq_none_iff, List.find?_eq_none] at h
+      have h1 := h (n!"Deserialize", "Deserialize", T.deserialize) (by simp)
+      have h2 := h (n!"Serialize", "Serialize", T.serialize) (by simp)
+      have h3 := h (n!"ByteLength", "ByteLength", T.byteLength) (by simp)
+      have h4 := h (n!"FixedLength", "FixedLength", T.fixedLength) (by simp)
+      exact ⟨by simpa using h1, by simpa using h2, by simpa using h3, by simpa using h4⟩
+
+theorem extract_uint_root (owners : Owners) (views : List ViewDef) (T : GoType) (k : Nat)
+    (h : checkType owners views .root T = none)
+    (hschema : Spec.lookup T.name = some (.uint k)) :
     leafMethodOk owners views (.uint k) n!"HashTreeRoot" T.hashTreeRoot = true := by
   unfold checkType at h
   simp only [hschema] at h
@@ -761,21 +852,16 @@ theorem extract_uint (owners : Owners) (views : List ViewDef) (T : GoType) (k : 
   · split at h
     · simp at h
     · simp only [Option.map_eq_none_iff, List.find?_eq_none] at h
-      have h1 := h (n!"Deserialize", "Deserialize", T.deserialize) (by simp)
-      have h2 := h (n!"Serialize", "Serialize", T.serialize) (by simp)
-      have h3 := h (n!"ByteLength", "ByteLength", T.byteLength) (by simp)
-      have h4 := h (n!"FixedLength", "FixedLength", T.fixedLength) (by simp)
-      have h5 := h (n!"HashTreeRoot", "HashTreeRoot", T.hashTreeRoot) (by simp)
-      exact ⟨by simpa using h1, by simpa using h2, by simpa using h3, by simpa using h4, by simpa using h5⟩
+      have h1 := h (n!"HashTreeRoot", "HashTreeRoot", T.hashTreeRoot) (by simp)
+      simpa using h1
 
-theorem extract_bytesN (owners : Owners) (views : List ViewDef) (T : GoType) (e : LExpr)
-    (h : checkType owners views T = none)
+theorem extract_bytesN_codec (owners : Owners) (views : List ViewDef) (T : GoType) (e : LExpr)
+    (h : checkType owners views .codec T = none)
     (hschema : Spec.lookup T.name = some (.bytesN e)) :
     leafMethodOk owners views (.bytesN e) n!"Deserialize" T.deserialize = true ∧
     leafMethodOk owners views (.bytesN e) n!"Serialize" T.serialize = true ∧
     leafMethodOk owners views (.bytesN e) n!"ByteLength" T.byteLength = true ∧
-    leafMethodOk owners views (.bytesN e) n!"FixedLength" T.fixedLength = true ∧
-    leafMethodOk owners views (.bytesN e) n!"HashTreeRoot" T.hashTreeRoot = true := by
+    leafMethodOk owners views (.bytesN e) n!"FixedLength" T.fixedLength = true := by
   unfold checkType at h
   simp only [hschema] at h
   split at h
@@ -787,7 +873,20 @@ theorem extract_bytesN (owners : Owners) (views : List ViewDef) (T : GoType) (e 
       have h2 := h (n!"Serialize", "Serialize", T.serialize) (by simp)
       have h3 := h (n!"ByteLength", "ByteLength", T.byteLength) (by simp)
       have h4 := h (n!"FixedLength", "FixedLength", T.fixedLength) (by simp)
-      have h5 := h (n!"HashTreeRoot", "HashTreeRoot", T.hashTreeRoot) (by simp)
-      exact ⟨by simpa using h1, by simpa using h2, by simpa using h3, by simpa using h4, by simpa using h5⟩
+      exact ⟨by simpa using h1, by simpa using h2, by simpa using h3, by simpa using h4⟩
+
+theorem extract_bytesN_root (owners : Owners) (views : List ViewDef) (T : GoType) (e : LExpr)
+    (h : checkType owners views .root T = none)
+    (hschema : Spec.lookup T.name = some (.bytesN e)) :
+    leafMethodOk owners views (.bytesN e) n!"HashTreeRoot" T.hashTreeRoot = true := by
+  unfold checkType at h
+  simp only [hschema] at h
+  split at h
+  · simp at h
+  · split at h
+    · simp at h
+    · simp only [Option.map_eq_none_iff, List.find?_eq_none] at h
+      have h1 := h (n!"HashTreeRoot", "HashTreeRoot", T.hashTreeRoot) (by simp)
+      simpa using h1
 
 end Zrnt.Proofs.SSZ
